@@ -77,6 +77,9 @@ def run(ctx, model_ok=True):
     for lab in META:
         for _ in range(n):
             lines.append(f"malform m{k} meta {rng.randrange(1 << 30)} {lab}"); k += 1
+    for proc in range(4):
+        for mx in range(4):
+            lines.append(f"dasmsweep s{k} {proc} {mx} {[0, 768, 65280][(proc + mx) % 3]}"); k += 1
     import os
     corpus = os.path.join(fw.VERIF, 'corpus', 'C12.cases')
     if os.path.exists(corpus):
@@ -88,7 +91,7 @@ def run(ctx, model_ok=True):
         o = out.get(t[1])
         ctx.evaluations += 1
         if o is None or not o.startswith('ok'):
-            what = t[2] + (':' + t[4] if len(t) > 4 else '')
+            what = (t[2] + (':' + t[4] if len(t) > 4 else '')) if t[0] == 'malform' else t[0]
             cls = ('crash:' if (o or 'CRASH').startswith('CRASH') or o is None else 'hang:' if 'hang' in (o or '')[:12] else 'panic:') + what
             ctx.failures.append({'cls': cls, 'case': ln, 'detail': (o or 'NO-OUTPUT')[:500]})
         else:
